@@ -22,7 +22,8 @@ RULE = (
     "cases = (names) pairs of fluent programs (1-3 map/reduce steps each) over one shared source array, steps drawn from a callable "
     "pool built for the quantifier: distinct lambdas, distinct functions with equal __name__ from different factories, one function "
     "with different static positional/keyword arguments, equal static arguments of different type (1, 1.0, '1', True), "
-    "functools.partial; the union is taken with Cascade.from_actions, Cascade.__add__ and Graph.__add__ + deduplicate_nodes; "
+    "functools.partial, library binary operations (add/subtract/multiply/divide, either operand order), stack with axis 0/1/-1 and the "
+    "default or a caller-owned keyword dict (pairs differing only in the requested axis must not end in nodes of one name); the union is taken with Cascade.from_actions, Cascade.__add__ and Graph.__add__ + deduplicate_nodes; "
     "(operands) fluent programs from the C13 generator plus identity/derived transform, with a snapshot (node identities, dims, "
     "coordinate values, attrs) of every pre-existing action before and after each operation. non-trivial = (names) the two programs "
     "differ in exactly one callable or one static argument at the same position; (operands) an operation with a second action whose "
